@@ -16,7 +16,7 @@ Z3_VERSION = z3.get_version_string()
 
 
 def discharge(ob: Obligation, axioms: Sequence[Any], lib: SpecLib | None, timeout_ms: int, use_cvc5: bool = True,
-              input_terms: dict[str, Any] | None = None, lemma_rules: set[str] | None = None) -> Obligation:
+              input_terms: dict[str, Any] | None = None, lemma_rules: set[str] | None = None, prefer_cvc5: bool = False) -> Obligation:
     t0 = time.time()
     hyps = list(ob.hyps)
     inst_used: dict[str, int] = {}
@@ -30,6 +30,13 @@ def discharge(ob: Obligation, axioms: Sequence[Any], lib: SpecLib | None, timeou
     for h in hyps:
         s.add(h)
     s.add(z3.Not(ob.goal))
+    if prefer_cvc5 and os.path.exists("/usr/bin/cvc5"):
+        # string-heavy lemmas: cvc5 decides the alphabet / delimiter steps that z3's seq solver times out on
+        st = _cvc5(s.to_smt2(), max(2, timeout_ms // 2000))
+        if st == "unsat":
+            ob.status, ob.backend, ob.seconds = "discharged", "cvc5-1.0", time.time() - t0
+            ob.inputs = {"rule_instances": inst_used}
+            return ob
     r = s.check()
     ob.seconds = time.time() - t0
     ob.backend = f"z3-{Z3_VERSION}"
